@@ -1,64 +1,8 @@
 package main
 
 import (
-	"go/ast"
 	"go/types"
 )
-
-func init() {
-	register(&PropDef{
-		ID:    "X00",
-		Title: "development: uniformity over all of fast",
-		Rules: []func(*Ctx){func(c *Ctx) { ruleUniformity(c, "fast", nil, "U-uniform") },
-			func(c *Ctx) { ruleDepth(c, "fast", nil, "A3-depth", "A4-storage") },
-			func(c *Ctx) { ruleAccessor(c, "fast", "A2-accessor") },
-			func(c *Ctx) { ruleAccessor(c, "xreflect", "A2-accessor") }},
-	})
-}
-
-func init() {
-	registry["X00"].Rules = append(registry["X00"].Rules, func(c *Ctx) {
-		var l []string
-		for k := range depthSwitchRejects {
-			l = append(l, k)
-		}
-		c.Extra("depth_switch_rejects", l)
-	})
-}
-
-func init() {
-	registry["X00"].Rules = []func(*Ctx){func(c *Ctx) { ruleUniformity(c, "fast", nil, "U-uniform") }, func(c *Ctx) {
-		opOf := ruleDispatchTables(c, "fast", []string{"fast.Comp.BinaryExpr1", "fast.Comp.UnaryExpr", "fast.Comp.setVar", "fast.Comp.setPlace"}, "A5")
-		ruleOperatorAnchor(c, "fast", opOf, "A5-operator", "A6-order", nil)
-		ext := extendOps(c, "fast", opOf)
-		ruleShortcuts(c, "fast", ext, "A7-shortcut", nil)
-		helpers := map[string]string{}
-		for fn, op := range ext {
-			if _, direct := opOf[fn]; !direct {
-				helpers[funcFullName(fn)] = op
-			}
-		}
-		c.Extra("pow2_helpers", helpers)
-		rulePow2(c, "fast", helpers, "A8-pow2")
-	}}
-}
-
-func init() {
-	register(&PropDef{ID: "X01", Title: "dev: dump pow2 helper terms", Rules: []func(*Ctx){func(c *Ctx) {
-		fd := families(c, "fast")
-		seen := map[string]int{}
-		for _, m := range fd.members {
-			switch m.FD.Name.Name {
-			case "mulPow2", "quoPow2", "remPow2", "varQuoPow2", "placeQuoPow2":
-				s := m.FD.Name.Name + " [" + kindCategory(firstOr(m.Kinds)) + "] " + m.pathString(m.KindIdx+1) + " :: " + showTerm(canonMember(c.P.Fset, m, fd.di[m.FD]), m.Tau)
-				seen[s]++
-			}
-		}
-		for _, k := range sortedKeys(seen) {
-			println(seen[k], k)
-		}
-	}}})
-}
 
 func firstOr(s []string) string {
 	if len(s) > 0 {
@@ -121,69 +65,12 @@ func init() {
 	})
 }
 
-func init() {
-	register(&PropDef{ID: "X02", Title: "dev: dump stmt return shapes", Rules: []func(*Ctx){func(c *Ctx) {
-		pk := c.P.Pkg("fast")
-		info := pk.TypesInfo
-		seen := map[string]int{}
-		first := map[string]string{}
-		for _, f := range pk.Syntax {
-			ast.Inspect(f, func(n ast.Node) bool {
-				fl, ok := n.(*ast.FuncLit)
-				if !ok || !isStmtSig(info.TypeOf(fl)) {
-					return true
-				}
-				cz := newCanonizer(info, c.P.Fset, nil, nil, fl)
-				cz.sig(fl.Type)
-				ast.Inspect(fl.Body, func(n ast.Node) bool {
-					if inner, ok := n.(*ast.FuncLit); ok && inner != fl {
-						return false
-					}
-					switch x := n.(type) {
-					case *ast.ReturnStmt:
-						s := "RET " + cz.exprs(x.Results)
-						seen[s]++
-						if first[s] == "" {
-							first[s] = c.pos(x)
-						}
-					case *ast.AssignStmt:
-						if len(x.Lhs) == 1 {
-							if sel, ok := x.Lhs[0].(*ast.SelectorExpr); ok && sel.Sel.Name == "IP" {
-								s := "SET " + cz.stmt(x)
-								seen[s]++
-								if first[s] == "" {
-									first[s] = c.pos(x)
-								}
-							}
-						}
-					case *ast.IncDecStmt:
-						s := "INC " + cz.stmt(x)
-						seen[s]++
-						if first[s] == "" {
-							first[s] = c.pos(x)
-						}
-					}
-					return true
-				})
-				return true
-			})
-		}
-		for _, k := range sortedKeys(seen) {
-			println(seen[k], k, "   @", first[k])
-		}
-	}}})
-}
-
 func isStmtSig(t types.Type) bool {
 	sig, ok := t.(*types.Signature)
 	if !ok || sig.Params().Len() != 1 || sig.Results().Len() != 2 {
 		return false
 	}
 	return isEnvPtr(sig.Params().At(0).Type()) && isNamedType(sig.Results().At(0).Type(), "fast", "Stmt") && isEnvPtr(sig.Results().At(1).Type())
-}
-
-func init() {
-	register(&PropDef{ID: "X03", Title: "dev: S1", Rules: []func(*Ctx){func(c *Ctx) { ruleStmtProtocol(c, "fast", nil, "S1-stmt-protocol") }}})
 }
 
 // ---------------------------------------------------------------- C02
@@ -243,24 +130,6 @@ func init() {
 			{Name: "shl-dispatched-to-shr", File: "fast/var_ops.go", Old: "return c.varShlConst(va, val)", New: "return c.varShrConst(va, val)"},
 		},
 	})
-}
-
-func init() {
-	register(&PropDef{ID: "X04", Title: "dev: ints guard", Rules: []func(*Ctx){func(c *Ctx) { ruleIntsGuard(c, "fast", "A4-ints-guard") }}})
-}
-
-func init() {
-	register(&PropDef{ID: "X05", Title: "dev: frames", Rules: []func(*Ctx){func(c *Ctx) {
-		ruleMarkBeforeEscape(c, "fast", "M1-mark-before-escape")
-		ruleNewFreePairing(c, "fast", "N1-new-free")
-		ruleInteriorPointers(c, "fast", "Q1-interior-pointer")
-		for _, f := range []string{"Pool", "PoolSize"} {
-			ruleOwnership(c, "O1-pool-owner", "fast", "Run", f, nil, "")
-		}
-		ruleOwnership(c, "O2-usedbyclosure-owner", "fast", "Env", "UsedByClosure", nil, "")
-		ruleOwnership(c, "O3-ints-owner", "fast", "Env", "Ints", nil, "")
-		ruleOwnership(c, "O3-intaddr-owner", "fast", "Env", "IntAddressTaken", nil, "")
-	}}})
 }
 
 // ---------------------------------------------------------------- C06, C14
@@ -515,21 +384,6 @@ func init() {
 			{Name: "declared-method-without-body", File: "go/types/cti_method.go", Old: "\t\t\tnewFunc(\"AndNot\", sig_binary),\n", New: "\t\t\tnewFunc(\"AndNot\", sig_binary),\n\t\t\tnewFunc(\"Nand\", sig_binary),\n"},
 		},
 	})
-}
-
-func init() {
-	register(&PropDef{ID: "X06", Title: "dev: exec rules", Rules: []func(*Ctx){func(c *Ctx) {
-		ruleLockSet(c, "fast", "IrGlobals", "gls", "lock", "X1-lock-set")
-		ruleSpinLock(c, "X2-spinlock")
-		ruleGoidGate(c, "X3-goid-gate")
-		ruleRecoverGuards(c, "X4-recover-guards")
-		ruleDeferProtocol(c, "X5-defer-protocol")
-		ruleSaveRestore(c, "X6-save-restore")
-		ruleInterruptPolling(c, "X7-interrupt-polling")
-		for _, f := range []string{"goid", "PanicFun", "DeferOfFun", "Panic", "ExecFlags", "DebugDepth", "InstallDefer", "Interrupt", "CurrEnv"} {
-			ruleOwnership(c, "O-"+f, "fast", "Run", f, nil, "")
-		}
-	}}})
 }
 
 // ---------------------------------------------------------------- C07 C10 C12 C13 C33
@@ -797,6 +651,37 @@ func init() {
 			{Name: "classic-int-sub-is-add", File: "classic/binaryexpr.go", Old: "\tcase token.SUB, token.SUB_ASSIGN:\n\t\tret = x - y\n", New: "\tcase token.SUB, token.SUB_ASSIGN:\n\t\tret = x + y\n", Nth: 1, Canary: true},
 			{Name: "classic-float-lss-operands-swapped", File: "classic/binaryexpr.go", Old: "\t\tcase token.LSS:\n\t\t\tb = x < y\n", New: "\t\tcase token.LSS:\n\t\t\tb = y < x\n", Nth: 1, Canary: true},
 			{Name: "classic-uint-andnot-is-and", File: "classic/binaryexpr.go", Old: "ret = x &^ y", New: "ret = x & y", Nth: 2},
+		},
+	})
+}
+
+func init() {
+	register(&PropDef{
+		ID:    "C18",
+		Title: "Program results do not depend on semantics-neutral interpreter options",
+		Explanation: "Decided: N1 who-may-read: OptCollectDeclarations / OptCollectStatements / OptTrapPanic / OptPanicStackTrace / OptKeepUntyped are referenced only by the enumerated REPL-driver, collector, command-line and result-returning functions (CompileAst, RunExpr, DebugExpr convert a final untyped result to its default type), never by code that compiles or executes programs; " +
+			"N2 effect confinement: every statement controlled by OptDebugger only records the compiler for the debugger (a *Comp that the function never dereferences, or Env.DebugComp), and Env.DebugComp is read only by the single-step hook and the debugger package. " +
+			"Not decided: the generics switch (a package-level mode consulted by the parser and type checker).",
+		Assumptions: []string{"option constants are referenced by name (no arithmetic on raw bit values)"},
+		Rules:       []func(*Ctx){ruleOptionConfinement},
+		Mutants: []Mutant{
+			{Name: "debugger-option-changes-compilation", File: "fast/func1ret0.go", Old: "\tif c.Globals.Options&base.OptDebugger != 0 {\n\t\tdebugC = c\n\t}", New: "\tif c.Globals.Options&base.OptDebugger != 0 {\n\t\tdebugC = c\n\t\tc.UpCost++\n\t}", Canary: true},
+			{Name: "executor-reads-trap-panic", File: "fast/code.go", Old: "\tcaller := run.CurrEnv\n\t// restore g.IsDefer", New: "\tif run.Options&base.OptTrapPanic != 0 {\n\t\trun.Signals.Sync = base.SigNone\n\t}\n\tcaller := run.CurrEnv\n\t// restore g.IsDefer", Canary: true},
+			{Name: "compiler-reads-debugcomp", File: "fast/compile.go", Old: "\tenv.DebugComp = debugComp\n\tcaller := run.CurrEnv", New: "\tenv.DebugComp = debugComp\n\tif outer.DebugComp != nil {\n\t\tenv.Caller = nil\n\t}\n\tcaller := run.CurrEnv"},
+		},
+	})
+	register(&PropDef{
+		ID:    "C19",
+		Title: "Debugging is transparent and step/next/finish/continue stop where documented",
+		Explanation: "Decided: B1 table agreement: with the single stop test `env.CallDepth < run.DebugDepth` of singleStep, the depths requested by the commands (step: MaxInt, next: CallDepth+1, finish: CallDepth, continue: 0) give exactly the four documented behaviours (any depth / same or shallower / shallower / breakpoints only) — the checker derives the class from the operator and the offsets; singleStep executes exactly one statement per call and reaches the debugger hook under the stop test; applyDebugOp turns single-stepping on iff the depth is > 0 and records it; a function frame's CallDepth is its caller's + 1; " +
+			"N2 confinement of the debugger's state (shared with C18): nothing the compiler or executor computes depends on OptDebugger or Env.DebugComp. Not decided: the stop sequence of a concrete run.",
+		Assumptions: []string{"frames are pushed and popped as checked by C06 (new/free pairing)"},
+		Rules:       []func(*Ctx){ruleDebuggerTable, ruleOptionConfinement},
+		Mutants: []Mutant{
+			{Name: "next-behaves-like-finish", File: "fast/debug/cmd.go", Old: "return DebugOp{d.env.CallDepth + 1, nil}", New: "return DebugOp{d.env.CallDepth, nil}", Canary: true},
+			{Name: "stop-test-inclusive", File: "fast/debug.go", Old: "if env.CallDepth < run.DebugDepth {", New: "if env.CallDepth <= run.DebugDepth {", Canary: true},
+			{Name: "step-is-bounded", File: "fast/global.go", Old: "DebugOpStep     = DebugOp{MaxInt, nil}", New: "DebugOpStep     = DebugOp{1, nil}"},
+			{Name: "calldepth-not-incremented", File: "fast/compile.go", Old: "env.CallDepth = caller.CallDepth + 1", New: "env.CallDepth = caller.CallDepth"},
 		},
 	})
 }
